@@ -55,6 +55,7 @@ def shards(tier, seed):
     for B, L in subs:
         out.append(dict(name="sub/B%d/L%d" % (B, L), kind="sub", B=B, L=L, weight=(L * 4) ** (2 * min(B, 2))))
     out.append(dict(name="history", kind="history", B=1, L=4, weight=3000))
+    out.append(dict(name="long", kind="long", B=3, L=300, weight=3000))
     return out
 
 
@@ -296,8 +297,78 @@ def run_sub(rec, sh, tier, seed):
     rec.sample(dict(kind="sub", B=B, L=L, per_example_lists=len(per)))
 
 
+def run_long(rec, tier, seed):
+    """Long sequences, several examples, variants at positions around 8-bit boundaries and at both ends; numpy index arrays as well as tensors."""
+    from tangermeme.variant_effect import deletion_effect, insertion_effect, substitution_effect
+    B, L = 5, 300
+    rs = numpy.random.RandomState(17 + seed)
+    codes = rs.randint(0, A, (B, L))
+    X = ohe(codes, A)
+    Xc = X.clone()
+    pos = [0, 1, 126, 127, 128, 129, 254, 255, 256, 257, L - 2, L - 1]
+    import itertools as it
+    sets = [c for k in (1, 2, 3) for c in it.combinations(pos, k)][::7]
+    for si, ps in enumerate(sets):
+        per = {b: tuple(sorted(set(pos[(si + b + j) % len(pos)] for j in range((si + b) % 4)))) for b in range(B)}
+        per[0] = ps
+        # deletions
+        for left in (False, True):
+            rows = [(b, p) for b in range(B) for p in per[b]]
+            m = max(len(v) for v in per.values())
+            exp_a, exp_b = [], []
+            for b in range(B):
+                s_ = [c for i, c in enumerate(codes[b]) if i not in per[b]]
+                t = m - len(per[b])
+                exp_a.append(s_[t:] if left else s_[:len(s_) - t])
+                exp_b.append(list(codes[b][m:]) if left else list(codes[b][:L - m]))
+            st, val, ok_args = _capture(deletion_effect, X, torch.tensor(rows, dtype=torch.int64).reshape(-1, 2), left, True, B)
+            rec.case(1, 1)
+            case = dict(fn="deletion_effect", L=L, B=B, deletions=rows, left=left, seqs="rs(17+seed)")
+            if st != "ok":
+                rec.violation("deletion_effect:raises:long", case, observed=val)
+                continue
+            ga, oka = decode(val[1])
+            gb, okb = decode(val[0])
+            if not (oka and okb) or not numpy.array_equal(ga, numpy.array(exp_a)) or not numpy.array_equal(gb, numpy.array(exp_b)) or not ok_args:
+                rec.violation("deletion_effect:after_wrong:long", case)
+        # insertions (distinct coordinates per example)
+        rows = [(b, p, (p + b) % A) for b in range(B) for p in per[b]]
+        for left in (False, True):
+            exp = []
+            for b in range(B):
+                s_ = list(codes[b])
+                for p in sorted(per[b], reverse=True):
+                    s_ = s_[:p] + [(p + b) % A] + s_[p:]
+                exp.append(s_[-L:] if left else s_[:L])
+            st, val, ok_args = _capture(insertion_effect, X, torch.tensor(rows, dtype=torch.int64).reshape(-1, 3), left, False, B)
+            rec.case(1, 1)
+            case = dict(fn="insertion_effect", L=L, B=B, insertions=rows, left=left, seqs="rs(17+seed)")
+            if st != "ok":
+                rec.violation("insertion_effect:raises:long", case, observed=val)
+                continue
+            ga, oka = decode(val[1])
+            if not oka or not numpy.array_equal(ga, numpy.array(exp)) or not numpy.array_equal(decode(val[0])[0], codes):
+                rec.violation("insertion_effect:after_wrong:long", case)
+        # substitutions
+        exp = codes.copy()
+        for (b, p, c) in rows:
+            exp[b, p] = c
+        st, val, ok_args = _capture(substitution_effect, X, torch.tensor(rows, dtype=torch.int64).reshape(-1, 3), None, True, B)
+        rec.case(1, 1)
+        if st != "ok" or not numpy.array_equal(decode(val[1])[0], exp) or not numpy.array_equal(decode(val[0])[0], codes) or not ok_args:
+            rec.violation("substitution_effect:after_wrong:long", dict(fn="substitution_effect", L=L, B=B, substitutions=rows), observed=val if st != "ok" else None)
+        if not torch.equal(X, Xc):
+            rec.violation("variant_effect:input_modified:long", dict(fn="long", step=si))
+            X = Xc.clone()
+        rec.observe(si, rows)
+    rec.sample(dict(kind="long", B=B, L=L, positions=pos, variant_sets=len(sets)))
+
+
 def run_shard(sh, tier, seed):
     rec = Recorder(PID, sh["name"])
+    if sh["kind"] == "long":
+        run_long(rec, tier, seed)
+        return rec.result()
     if sh["kind"] == "history":
         # one process, batch shapes / lengths / functions alternated: nothing may be carried over between calls
         for (kind, B, L, left) in (("del", 1, 4, False), ("del", 2, 5, True), ("sub", 2, 4, None), ("del", 1, 5, True), ("ins", 1, 4, None),
